@@ -97,7 +97,7 @@ BAD_VALUES = ['Foo', 'U:Foo', 'M:Foo', 'X:Foo', 'Glycan:Foo', 'Formula:Xx2', 'Ob
               'MOD:99999', 'INFO:only', 'R:Foo', 'G:Foo', 'U:', 'Formula:Xy', 'Formula:C-',
               'Obs:', 'Obs:+-1',
               # words and Python-only literals that int() / float() would take for numbers
-              'NAN', 'nan', 'INF', 'inf', 'Infinity', '-inf', '1_0', '1e400',
+              'NAN', 'nan', 'INF', 'inf', 'Infinity', '-inf', '1_0', '1e400', ' 1', '1 ',
               # case variants of resolvable spellings (names, formulas and glycan names are case-sensitive)
               'acetyl', 'OXIDATION', 'phospho', 'ACETYL', 'Formula:c2h2o', 'Glycan:hexnac', 'U:acetyl', 'carbamidomethyl']
 WARM_UP = ['Acetyl', 'Oxidation', 'Phospho', 'Formula:C2H2O', 'Glycan:HexNAc', 'U:Acetyl', 'Carbamidomethyl']
@@ -162,6 +162,26 @@ def check_deferred(case) -> Result:
             if pos == 'isotope':
                 sig = 'C09/deferred/isotope/unknown-label-silently-ignored'
             r.fail('an unresolvable modification is not silently counted as zero', sig, got=got if isinstance(got, float) else str(got), **ctx)
+    # the composition calculator must not turn into a mass shift what the mass calculator refuses as unresolvable
+    if pos != 'isotope':
+        try:
+            pt.mass(a)
+            mass_raises = False
+        except ValueError:
+            mass_raises = True
+        except Exception:  # noqa (reported above)
+            mass_raises = False
+        if mass_raises:
+            try:
+                comp_, delta_ = pt.comp_mass(a.copy())
+                if delta_ != 0 and {k: v for k, v in comp_.items() if v} == base_c:
+                    r.fail('asking for the mass or composition of an unresolvable modification raises a ValueError-family error',
+                           f'C09/deferred/{pos}/comp_mass-reads-a-mass-shift-where-mass-raises', residual=str(delta_), **ctx)
+            except ValueError:
+                pass
+            except Exception as e:  # noqa
+                r.fail('asking for the mass or composition of an unresolvable modification raises a ValueError-family error',
+                       f'C09/deferred/{pos}/comp_mass-raises-{type(e).__name__}', error=str(e)[:100], **ctx)
     return r
 
 
